@@ -196,7 +196,9 @@ func gcParked() (parked, total int) {
 		buf = make([]byte, 2*len(buf))
 	}
 	for _, g := range bytes.Split(buf, []byte("\n\n")) {
-		if !bytes.Contains(g, []byte("concurrentStrategy).runGC")) {
+		// a collector that has not run yet shows only the wrapper of its `go` statement ("...NewConcurrentStrategy.gowrapN",
+		// "created by ...NewConcurrentStrategy"); once it runs it shows runGC
+		if !bytes.Contains(g, []byte("concurrentStrategy).runGC")) && !bytes.Contains(g, []byte("quota.NewConcurrentStrategy")) {
 			continue
 		}
 		total++
